@@ -262,7 +262,9 @@ class Store:
         self.sb = sbx.Sandbox(sim, bufsize=8192)
         self.data_dir = self.sb.path('data')
         self.res_dir = os.path.join(self.data_dir, 'results')
-        self.ledger = seams.Ledger(sim)
+        _dt = stream(sim.seed, 'trial_dt')
+        self.ledger = seams.Ledger(sim, trial_dt=lambda p: _dt.choice(
+            [0.001, 0.01, 0.25]))
         self.lrng = stream(self.plan['listing_seed'], 'listing')
         self.sb.install()
         seams.install_entropy(sim.seed)
@@ -313,6 +315,7 @@ class Store:
             'n_analyses': self.n_analyses,
             'rows_checked': self.rows_checked,
             'samples': self.samples,
+            'sim_seconds': sim.clock.now() - 1_700_000_000.0,
             'n_trials': sum(len(v) for d in self.ledger.by_proc.values()
                             for v in d.values()),
         }
@@ -792,7 +795,7 @@ JOB_TIMEOUT = 900
 def run_job(job):
     summ = {'runs': 0, 'violations': [], 'states': set(), 'probes': {},
             'fault_counts': {}, 'analyses': 0, 'rows': 0, 'trials': 0,
-            'samples': [], 'ops': 0}
+            'samples': [], 'ops': 0, 'sim_seconds': 0.0}
     seen = set()
     for s in job['seeds']:
         plan = gen_plan(s)
@@ -803,6 +806,7 @@ def run_job(job):
         summ['analyses'] += o['n_analyses']
         summ['rows'] += o['rows_checked']
         summ['trials'] += o['n_trials']
+        summ['sim_seconds'] += o.get('sim_seconds', 0.0)
         for k, v in o['probes'].items():
             summ['probes'][k] = summ['probes'].get(k, 0) + v
         for k, v in o['fault_counts'].items():
@@ -834,11 +838,11 @@ def determinism_plans(seed, n):
 def new_aggregate():
     return {'runs': 0, 'violations': [], 'states': set(), 'probes': {},
             'fault_counts': {}, 'analyses': 0, 'rows': 0, 'trials': 0,
-            'samples': [], 'ops': 0}
+            'samples': [], 'ops': 0, 'sim_seconds': 0.0}
 
 
 def aggregate(agg, r):
-    for k in ('runs', 'analyses', 'rows', 'trials', 'ops'):
+    for k in ('runs', 'analyses', 'rows', 'trials', 'ops', 'sim_seconds'):
         agg[k] += r[k]
     agg['violations'] += r['violations']
     agg['states'].update(r['states'])
@@ -941,6 +945,7 @@ def evidence(tier, agg, wall):
         'simulated_runs': agg['runs'],
         'simulated_runs_per_hour': int(agg['runs'] / max(wall, 1e-9) * 3600),
         'trials_executed': agg['trials'],
+        'simulated_seconds_covered': round(agg['sim_seconds'], 1),
         'faults_fired': dict(sorted(agg['fault_counts'].items())),
         'reach_probes': dict(sorted(agg['probes'].items())),
         'real_vs_stub': {
